@@ -165,6 +165,7 @@ func independentTests(c *Ctx) {
 				}
 			}
 		}
+		loops := an.Loops(fn)
 		for _, a := range tests {
 			dep := ""
 			// every branch decided by another test must lead to this one from both of its sides (or from neither)
@@ -177,8 +178,17 @@ func independentTests(c *Ctx) {
 					if o.in == a.in || o.name == a.name || !dependsOnValue(iff.Cond, o.v, 0) {
 						continue
 					}
-					r0 := b.Succs[0] == a.in.Block() || an.Reach(b.Succs[0], nil)[a.in.Block()]
-					r1 := b.Succs[1] == a.in.Block() || an.Reach(b.Succs[1], nil)[a.in.Block()]
+					// within one iteration: do not follow the back edge of the loop the branch stands in
+					stop := func(x *ssa.BasicBlock) bool {
+						for _, l := range loops {
+							if l.Blocks[b] && x == l.Header {
+								return true
+							}
+						}
+						return false
+					}
+					r0 := b.Succs[0] == a.in.Block() || (!stop(b.Succs[0]) && an.Reach(b.Succs[0], stop)[a.in.Block()])
+					r1 := b.Succs[1] == a.in.Block() || (!stop(b.Succs[1]) && an.Reach(b.Succs[1], stop)[a.in.Block()])
 					if r0 != r1 {
 						dep = o.name
 					}
@@ -370,9 +380,8 @@ func valueHalfOnErrorEdge(c *Ctx, rule string, pkgs ...string) {
 			}
 		}
 	}
-	if n == 0 {
-		c.R.Fail("%s: no send of a (value, error) half found", rule)
-	}
+	c.R.Note(rule+"/examined", "-", sprintf("%d sends of a (value, error) half examined", n))
+	c.R.SetFloor(0)
 }
 
 // staleLoopCarried: a variable that is assigned afresh in some iterations only, and read in every iteration, carries the
